@@ -120,6 +120,8 @@ class Gate:
         if self.schedule is None:
             if self.delays:
                 time.sleep(self.rng.random() * self.delays)
+            if getattr(self, 'slow', None) and i in self.slow:
+                time.sleep(self.slow[i])          # one trace set much slower than the other: its thread is still busy long after the other ended
             return out
         with self.cond:
             self.seen[i] += 1
@@ -393,6 +395,21 @@ def free_running(chk, rng, q):
         chk.count(('free', k), nontrivial=len(rows[0]) > bs or len(rows[1]) > bs)
         chk.traces_validated += 1
         compare_result(chk, an, exps[k], prec, ctx)
+        if k < (2 if q else 6) and max(len(rows[0]), len(rows[1])) >= 4:
+            # one set takes seconds longer than the other (slow storage, heavier preprocessing): the result still is the statistic of all traces
+            slow_set = 1 + k % 2
+            scared.set_batch_size(max(1, len(rows[slow_set - 1]) // 4))
+            an = scared.TTestAnalysis(precision=prec)
+            g2 = Gate(an, None)
+            g2.slow = {slow_set: 0.35}
+            an.run(build(an, rows[0], rows[1], fdt, None, g2))
+            chk.count(('free-slow', k), nontrivial=True)
+            chk.traces_validated += 1
+            compare_result(chk, an, exps[k], prec, dict(ctx, label=ctx['label'] + f' (set {slow_set} slow: 0.35 s per batch)', slow_set=slow_set))
+            for i_ in range(2):
+                if an.accumulators[i_].processed_traces != len(rows[i_]):
+                    chk.violation('result equals (mean1 - mean2) / sqrt(var1/n1 + var2/n2) over all traces of both sets', dict(ctx, property='C09', slow_set=slow_set, processed=[int(a_.processed_traces) for a_ in an.accumulators]),
+                                  f'{ctx["label"]} (set {slow_set} slow): accumulator {i_ + 1} processed {an.accumulators[i_].processed_traces} of {len(rows[i_])} traces')
         if k < (2 if q else 8):
             # the same sets presented rep times: many thousand traces, taken as ONE batch per set and as a few large batches
             rep = 10007 // min(len(rows[0]), len(rows[1])) + 1
